@@ -111,6 +111,10 @@ def gen(ctx, path, path_ok):
 def run(ctx):
     bins = cargo_build(["conv64", "conv32"])
     tlc_mc(ctx, "MC_ColourMath", tag="colourmath", workers=4, coverage=False)
+    nh = 12 if ctx.quick else 72
+    r = tlc_mc(ctx, "MC_OkColour", tag="okcolour", workers=6, coverage=False, constants={"NH": nh})
+    if r.distinct != nh + 7:
+        raise ToolError("MC_OkColour visited %d states, expected %d (vacuity control)" % (r.distinct, nh + 7))
     cmds, cmds_ok = ctx.p("c02.cmds"), ctx.p("c02ok.cmds")
     n, nok = gen(ctx, cmds, cmds_ok)
     log("C02: %d commands, %d on the Okhsv / Okhsl edges" % (n, nok))
@@ -139,7 +143,9 @@ def run(ctx):
                   rule="a case is one input colour converted along one hand-written edge; distinct by edge and exact input; every case "
                        "evaluates a defining equation (non-trivial)",
                   explanation="MC_ColourMath: 17 self-checks of the reference (derived sRGB matrix hits the white point and inverts, f(t) "
-                              "continuous at the join, known exact points accepted, perturbed points rejected). 40 directed edges x lattice, "
+                              "continuous at the join, known exact points accepted, perturbed points rejected). MC_OkColour: the transcribed Okhsv / Okhsl / "
+                              "HSLuv procedures mean what they are for on a hue grid (s = v = 1 is the gamut cusp, s = 1 the gamut surface, toe "
+                              "inverse, a 2 % perturbation fails). 40 directed edges x lattice, "
                               "threshold-straddling and random inputs x f32/f64 are judged by TLC with the relations of ColourMath.tla in "
                               "104-bit fixed point.",
                   trusted=["reference constants and formulas written in spec/ColourMath.tla with their citations",
